@@ -140,15 +140,16 @@ def run(repo, chk):
         p = Q.escapes(g, [r], lambda n: n in cut)
         chk.ob('a', done.ref, 'removing the component from the old parent is followed by resetting its parent pointer', p is None, loc(done, r.ast),
                path=pat.path_lines(p, r) if p else None, discr='detach:pointer-reset')
-    p = Q.escapes(g, [g.entry], lambda n: n in ann)
+    stale = pat.test_edge(lambda t, pol: pol == 'F' and src(t) in ('self.unregister_pending', 'self._unregister_pending'))  # nothing pending: nothing to complete
+    p = Q.escapes(g, [g.entry], lambda n: n in ann, avoid_edge=stale)
     chk.ob('c', done.ref, 'every completed unregistration is announced', p is None and bool(ann), loc(done, done.node),
            path=pat.path_lines(p) if p else None, discr='detach:announced')
     chk.ob('c', done.ref, 'unregistered is fired from exactly one site', len(ann) == 1, loc(done, done.node), discr='detach:once')
-    p = Q.escapes(g, [g.entry], lambda n: n in clr)
+    p = Q.escapes(g, [g.entry], lambda n: n in clr, avoid_edge=stale)
     chk.ob('c', done.ref, 'the pending flag is cleared when the unregistration completes', p is None and bool(clr), loc(done, done.node),
            path=pat.path_lines(p) if p else None, discr='detach:flag-cleared')
-    p = Q.escapes(g, [g.entry], lambda n: n in cut, avoid_edge=pat.test_edge(
-        lambda t, pol: pat.fact_matches(pat.compare_fact(t, pol), 'self.parent', ('is', '=='), 'self')))
+    p = Q.escapes(g, [g.entry], lambda n: n in cut, avoid_edge=lambda e: stale(e) or pat.test_edge(
+        lambda t, pol: pat.fact_matches(pat.compare_fact(t, pol), 'self.parent', ('is', '=='), 'self'))(e))
     chk.ob('a', done.ref, 'every completed unregistration of an attached component cuts the parent link', p is None, loc(done, done.node),
            path=pat.path_lines(p) if p else None, discr='detach:always-cut')
     # unregisterChild removes
@@ -160,6 +161,28 @@ def run(repo, chk):
     chk.ob('a', uc.ref, 'unregisterChild removes the component from the children on every path', p is None and bool(rems), loc(uc, uc.node),
            discr='unregisterChild:remove')
 
+    # ---- f: pending unregistrations inside a subtree that is being detached are not stranded ----------------
+    chk.rule('C07.f', 'before a component cuts its parent link, pending unregistrations of its descendants are completed (or queued events addressed to '
+                      'the subtree are handed over); a stale completion for a finished unregistration is ignored')
+    desc_loops = [n for n in g.nodes if n.kind in ('join', 'for') and isinstance(n.ast, (ast.While, ast.For))]
+    finish = [n for n in g.nodes if n.kind == 'stmt' and any(r != 'self' and True for r, _c in pat.method_calls(n.ast, done.name)) and
+              any(k == 'loop' for k, _a in n.ctx)]
+    handover = [n for n in g.nodes if n.kind == 'stmt' and '_queue' in src(n.ast) and ('drainFrom' in src(n.ast) or 'extend' in src(n.ast))]
+    okf = False
+    path = None
+    if finish:
+        fn0 = finish[0]
+        pend_guard = pat.guarded_by(g, fn0, pat.test_edge(lambda tt, pol: pol == 'T' and src(tt).endswith('.unregister_pending')))
+        loops_ = [a for k, a in fn0.ctx if k == 'loop']
+        walks_all = any('.components' in src(m.ast) for m in g.nodes if m.kind == 'stmt' and any(k == 'loop' and a is loops_[-1] for k, a in m.ctx)) if loops_ else False
+        seeds = any(isinstance(m.ast, ast.Assign) and 'self.components' in src(m.ast.value) for m in g.nodes if m.kind == 'stmt')
+        before_cut = all(Q.reachable_without(g, c_, avoid_node=lambda n: n.kind == 'join' and loops_ and n.ast is loops_[-1]) is None for c_ in cut) if loops_ else False
+        okf = pend_guard is None and walks_all and seeds and before_cut
+    chk.ob('f', done.ref, 'descendants whose unregistration is pending are completed (whole subtree walked) before the parent link is cut', okf or bool(handover),
+           loc(done, done.node), discr='pending-descendants-finished')
+    idem = [e for n in g.nodes if n.kind == 'test' and src(n.ast) in ('self.unregister_pending', 'self._unregister_pending') for e in n.succ if e.kind == 'F']
+    ok_idem = bool(idem) and all(e.dst.kind == 'stmt' and isinstance(e.dst.ast, ast.Return) for e in idem)
+    chk.ob('f', done.ref, 'a completion for an unregistration that is not pending (any more) does nothing', ok_idem, loc(done, done.node), discr='stale-completion-ignored')
     # ---- e: the tree a child joins / leaves forgets its memoised handler lists ------------------------------
     chk.rule('C07.e', 'adding or removing a child invalidates the dispatch memo of the tree it joins / leaves (a detached component receives '
                       'nothing further from its former tree)')
